@@ -406,6 +406,34 @@ func runC11(c *Ctx) {
 				})
 			}
 			r.Check("R11.4", FuncName(fn), "a pre-built row's errors are read and added to the table before the divert", div.Pos(), read && moved, fmt.Sprintf("Errors() read: %v, AddErrorList(table, those): %v", read, moved))
+			// ... and nobody hands this function a row that ALREADY shares the table's container: the "row's errors"
+			// it moves would be the table's own list, appended to itself (every earlier error reported twice)
+			if read && moved {
+				rowPar, _ := in.rowV.(*ssa.Parameter)
+				idx := -1
+				for k, q := range fn.Params {
+					if q == rowPar {
+						idx = k
+					}
+				}
+				for _, cs := range ix.callSitesOf(fn) {
+					ci, isI := cs.Call.(ssa.Instruction)
+					if !isI || idx < 0 || idx >= len(cs.Call.Common().Args) {
+						continue
+					}
+					arg := cs.Call.Common().Args[idx]
+					pc := ix.proverFor(cs.Fn)
+					for _, es := range c.StoresTo(rowEC) {
+						if es.Fn != cs.Fn || pc.canon(es.Base) != pc.canon(arg) || !instrDominates(es.St, ci) {
+							continue
+						}
+						if f2, _ := loadedField(es.St.Val); f2 == tabEC {
+							r.Check("R11.4", FuncName(cs.Fn), "the row handed to "+FuncName(fn)+" does not already share the table's container", ci.Pos(), false,
+								"its container was set to the table's before the call: the errors moved are the table's own, so every earlier error is recorded twice")
+						}
+					}
+				}
+			}
 		}
 	}
 	r.Floor("R11.3", "functions installing a row", na, 2)
